@@ -14,7 +14,9 @@
 (* kind "content": one content pushed through one of the code paths that    *)
 (*   apply filters; lines are abstracted to the set of registered filter    *)
 (*   strings they contain, the output to the indices of the lines it        *)
-(*   consists of (0: a line that is not in the input).  Judged by the       *)
+(*   consists of (0: a line that is not in the input).  Paths include the   *)
+(*   files of a multi-output spec (each file one event) and specs loaded    *)
+(*   back from a serialized archive (ModelPath).  Judged by the             *)
 (*   content operators of Filters.                                          *)
 (***************************************************************************)
 EXTENDS Filters, Json, IOUtils, TLCExt
@@ -55,7 +57,15 @@ GetOK == /\ GetShapeOK
 LinesOf(e) == [i \in DOMAIN e.lines |-> [blank |-> e.lines[i].blank, has |-> RngS(e.lines[i].has)]]
 AllowOf(e) == [p \in Pat |-> IF p \in DOMAIN e.allow THEN e.allow[p] ELSE 0]
 OutOf(e)   == IF e.collected THEN e.out ELSE <<>>
-IsHost(e)  == e.path \in {"host-file", "host-cmd", "host-write", "host-cmd-write"}
+(* code path of the event -> path of the model.  "-glob": one FILE of a multi-output spec (glob_file), judged as a *)
+(* content of its own (MultiOf); "serialized-*": stored with Hydration.dehydrate, loaded back with hydrate.       *)
+ModelPath(e) == CASE e.path \in {"host-file", "host-cmd", "host-write", "host-cmd-write"} -> "host"
+                  [] e.path = "host-glob" -> "host-multi"
+                  [] e.path = "archive-glob" -> "archive-multi"
+                  [] e.path = "serialized-file" -> "serialized"
+                  [] e.path = "serialized-glob" -> "serialized-multi"
+                  [] OTHER -> e.path
+IsHost(e)  == MultiOf(ModelPath(e)) = "host"
 ContentShapeOK == Len(Ev.allow) <= NP /\ \A i \in DOMAIN Ev.lines : RngS(Ev.lines[i].has) \subseteq Pat
 ContentOK ==
     LET L == LinesOf(Ev)  A == AllowOf(Ev)  O == OutOf(Ev) IN
@@ -126,7 +136,7 @@ DiagAdd ==
          (IF Ev.mx <= 0 THEN "bad-budget" ELSE IF 0 \in PatsOf(Ev) THEN "empty-pattern" ELSE "not-filterable") \o
          ":on-" \o KindOf(Ev.k)
 
-PathClass(e) == IF IsHost(e) THEN "host" ELSE e.path
+PathClass(e) == ModelPath(e)
 DiagContent ==
     LET L == LinesOf(Ev)  A == AllowOf(Ev)  O == OutOf(Ev) IN
     IF ~ContentShapeOK THEN "content.shape"
